@@ -236,8 +236,9 @@ class Controller(AbstractController):
                 self.aliases.pop(alias, None)
                 pairing.controller.aliases.pop(alias, None)
 
-                self.pairings.pop(pairing.id, None)
-                pairing.controller.pairings.pop(pairing.id, None)
+                # Both tables are keyed by the lower case id (see load_pairing)
+                self.pairings.pop(pairing.id.lower(), None)
+                pairing.controller.pairings.pop(pairing.id.lower(), None)
 
                 primary_pairing_id = pairing.pairing_data["iOSPairingId"]
 
